@@ -110,6 +110,28 @@ def check_cases(ctx, cases):
 
     reqs = []
     impls = []
+    # (a small home directory for the duration of the check: should anything expand "~", it lands there and not
+    # in the real one, which may be large)
+    import shutil
+
+    from common import scratch_dir
+
+    _home = scratch_dir("c06home")
+    with open(os.path.join(_home, "in-home"), "w") as _fh:
+        _fh.write("home\n")
+    _old_home = os.environ.get("HOME")
+    os.environ["HOME"] = _home
+    try:
+        return _check_cases(ctx, cases, reqs, impls, CliRunner, from_disk, identify, Directory)
+    finally:
+        if _old_home is None:
+            os.environ.pop("HOME", None)
+        else:
+            os.environ["HOME"] = _old_home
+        shutil.rmtree(_home, ignore_errors=True)
+
+
+def _check_cases(ctx, cases, reqs, impls, CliRunner, from_disk, identify, Directory):
     for ci, case in enumerate(cases):
         spec = case["tree"]
         nsub = sum(1 for p, n in fs.walk(spec) if n["t"] == "dir") - 1
@@ -198,7 +220,8 @@ def check_cases(ctx, cases):
                 arg = os.fsdecode(spelled)
                 try:
                     arg.encode("utf-8")
-                    r = runner.invoke(identify, ["--no-filename", arg])
+                    with ctx.time_limit(60):   # (the repeating alarm gets through click's own exception handling)
+                        r = runner.invoke(identify, ["--no-filename", arg])
                     if r.exit_code != 0 or r.stdout.strip() != "swh:1:dir:" + want[""][1]:
                         ctx.fail(case, "swh identify prints another id than the library", "cli-differs", {"output": r.output[:200]})
                     ctx.count("cli")
